@@ -1,5 +1,5 @@
 """Sidecar contracts of the real functions of /repo (no file of the repository is edited)."""
-ALL = ['c_node', 'c_composed', 'c_adopt']
+ALL = ['c_node', 'c_composed', 'c_adopt', 'c_frames', 'c_containers', 'c_structural']
 
 # evidence level per property (MANIFEST.level_claimed.category must agree)
 LEVELS = {}
